@@ -33,6 +33,10 @@ func (s *SafeBuf) Write(p []byte) (int, error) {
 	s.mu.Lock()
 	defer s.mu.Unlock()
 	if s.b.Len() > 4<<20 {
+		// full (debug-level packet dumps): keep nothing more, except that a recovered panic is never lost
+		if bytes.Contains(p, []byte("Caught panic")) && s.b.Len() < 5<<20 {
+			return s.b.Write(p)
+		}
 		return len(p), nil
 	}
 	return s.b.Write(p)
